@@ -44,6 +44,8 @@ func main() {
 	bf := fs.Uint("bf", 0, "fix branch factor")
 	nk := fs.Int("nk", 0, "fix key universe")
 	profile := fs.String("profile", "general", "operation mix")
+	part := fs.Int("part", 0, "flush: this process runs the cases with id % parts == part")
+	parts := fs.Int("parts", 1, "flush: number of driver processes the cases are split over")
 	budget := fs.Int("budget", 600, "executions spent on exhaustive schedule enumeration")
 	scen := fs.Int("scen", 6, "number of small scenarios whose schedules are enumerated")
 	scratch := fs.String("scratch", os.TempDir(), "scratch directory")
@@ -88,7 +90,7 @@ func main() {
 	case "flush":
 		enc, done := openOut(*out)
 		defer done()
-		flushFamily(*seed, *n, enc, *budget, *scen)
+		flushFamily(*seed, *n, enc, *budget, *scen, *part, *parts)
 	case "faults":
 		enc, done := openOut(*out)
 		defer done()
@@ -198,6 +200,7 @@ func main() {
 		}
 		fileCrashRuns(*seed, *n, *scratch, self, enc)
 		fileTreeRuns(*seed, *n*3, *scratch, self, enc)
+		fileEnospcRuns(*seed, *n*2, *scratch, enc)
 	case "filechild":
 		fileChild(*dir, *name, *size, *pseed, *limit, *mode)
 	default:
